@@ -68,7 +68,7 @@ def _rotations(d, tier):
 def _transformations(px, py, tier):
     trs = [("srcrot", Q) for Q in _rotations(px, tier)]
     trs += [("tgtrot", Q) for Q in _rotations(py, tier)]
-    trs += [("scaleX", 0.5), ("scaleX", 3.0), ("scaleY", 0.5), ("scaleY", 3.0), ("shiftX", 2.5), ("shiftY", -4.0)]
+    trs += [("scaleX", 0.5), ("scaleX", 3.0), ("scaleY", 0.5), ("scaleY", 3.0), ("shiftX", 2.5), ("shiftY", -4.0), ("shiftX", 1e7), ("shiftY", -1e7)]
     return trs
 
 
@@ -120,7 +120,7 @@ def cases(group):
         for tr in [_transformations(px, py, group["tier"])[group["ti"]]]:
             for measure in ("GRE", "GRD", "LRE"):
                 for idx in ("default", "disjoint", "overlapping", "train=test"):
-                    ests = ["fixed", "ridge"] if tr[0] == "tgtrot" else ["default", "fixed", "ridge"]
+                    ests = ["fixed", "ridge", "msecv"] if tr[0] == "tgtrot" else ["default", "fixed", "ridge"]
                     if tr[0] in ("scaleX", "scaleY", "shiftX", "shiftY"):
                         ests = ests + ["fixed+cw"]  # column-wise user scaler: shift / rescaling invariance still holds
                     if group["tier"] == "quick" and tr[0] in ("srcrot", "tgtrot") and idx in ("overlapping",) and measure != "GRE":
@@ -144,6 +144,8 @@ def _estimator(spec):
         return None
     if spec == "fixed":
         return Ridge2FoldCV(alphas=[1e-3], alpha_type="absolute", regularization_method="tikhonov", shuffle=False)
+    if spec == "msecv":  # model selection by (rotation-invariant) mean squared error over a grid
+        return Ridge2FoldCV(alphas=np.geomspace(1e-4, 1e2, 9), alpha_type="absolute", regularization_method="tikhonov", scoring=None, shuffle=False)
     return Ridge(alpha=1e-2, fit_intercept=False)
 
 
@@ -255,7 +257,8 @@ def check(case):
             else:
                 X2, Y2 = X, Y + par
             got = float(ev(name, X2, Y2, idx, est))
-            if abs(got - base) > 1e-9 * max(1.0, base):
+            tol_inv = 1e-9 if not (kind.startswith("shift") and abs(par) > 1e3) else 1e-6  # a 1e7 offset costs 7 digits of the input
+            if abs(got - base) > tol_inv * max(1.0, base):
                 return r.fail(
                     "not-invariant-under-%s" % kind,
                     "%s(%dx%d -> %d, indices %s, estimator %s): %.10g vs %.10g" % (name, n, px, py, idx, est, got, base),
